@@ -3,10 +3,14 @@
 # it (VERIF_REPO), append the result lines to seeded/<seed>/detect.log, remove the worktree.  Safe to run several at once.
 name="$1"; shift
 d=/verif/seeded/$name
+patch=$d/patch.diff
+if [ -f "$name" ]; then   # a patch file given directly (e.g. mutants/benign/*.patch): log under /tmp
+  patch=$(readlink -f "$name"); name=$(basename "$name" .patch); d=/tmp/detectlogs/$name; mkdir -p $d
+fi
 W=$(mktemp -d /tmp/detwt_XXXXXX); rmdir $W
 git -C /repo worktree add -q --detach $W HEAD || exit 2
 trap 'git -C /repo worktree remove --force '$W' 2>/dev/null; rm -rf '$W EXIT
-( cd $W && git apply $d/patch.diff ) || { echo "$name: patch does not apply"; exit 2; }
+( cd $W && git apply $patch ) || { echo "$name: patch does not apply"; exit 2; }
 [ -f $d/detect.log ] || echo "# tools/detect.sh $name <checks>  (scratch worktree of /repo HEAD with the patch applied; rc=1 = VIOLATION reported; Nv = VIOLATION lines)" > $d/detect.log
 cd /verif
 for id in "$@"; do
